@@ -183,7 +183,8 @@ Definition convert_cmp (c : opcomp operand) : option (list olit) :=
   let neg_lt := oc_negated c && op_ltb (oc_op c) Op_CONJUNCTION in
   let nb := neg_lt && Nat.eqb (length ops) 3 && negb (is_arith (oc_op c)) in
   let op1 := if neg_lt && negb nb then neg_op (oc_op c) else Some (oc_op c) in
-  if (forallb is_agg ops && negb nb) || Nat.ltb 1 (length (filter is_agg ops)) then
+  if (forallb is_agg ops && negb nb) || Nat.ltb 1 (length (filter is_agg ops))
+     || (nb && Nat.ltb 0 (length (filter is_agg ops)) && negb (match ops with _ :: o :: _ => is_agg o | _ => false end)) then
     match op1 with
     | None => None
     | Some op =>
